@@ -123,6 +123,11 @@ class Subject:
             b.prt[rng.choice(thermo), :] = 10
             b.ict[rng.randrange(len(nums)), 0] = 20
             b.space[rng.randrange(len(nums)), 0] = 30
+        # two interior lines flagged as unusable (fatal bit): their rows are blank in every product, whatever was asked before -
+        # and the coordinates the reader keeps for later requests stay blank there, too
+        if len(nums) >= 20:
+            for i in rng.sample(range(3, len(nums) - 3), 2):
+                b.quality[i] = 1 << 31
         if cfg.scene == "tsm":
             # a smooth scene with noise planted in a few places, so that the scan-motor filter selects some pixels
             w = filegen.FMT[cfg.fmt]["width"]
